@@ -48,20 +48,20 @@ theorem userCall_total (o : Opts) (T : FTab K) (f : String) (h : callable T f = 
   split at h <;> simp_all
 
 mutual
-theorem gen_total (P : Prims K) (o : Opts) (T : FTab K) : ∀ e : MExpr K, supported T e = true →
+theorem gen_total_aux (P : Prims K) (o : Opts) (T : FTab K) : ∀ e : MExpr K, supported T e = true →
     ∃ c, gen P o T e = .ok c
   | .num q, _ => ⟨_, rfl⟩
   | .ref n s, _ => ⟨_, rfl⟩
   | .idx i, _ => ⟨_, rfl⟩
   | .un op a, h => by
     simp only [supported, Bool.and_eq_true] at h
-    obtain ⟨ta, hta⟩ := gen_total P o T a h.2
+    obtain ⟨ta, hta⟩ := gen_total_aux P o T a h.2
     obtain ⟨c, hc⟩ := genUn_total P o T op h.1 ta
     exact ⟨c, by simp [gen, hta, bind, Except.bind, hc]⟩
   | .bin op a b, h => by
     simp only [supported, Bool.and_eq_true, bne_iff_ne, ne_eq] at h
-    obtain ⟨ta, hta⟩ := gen_total P o T a h.1.2
-    obtain ⟨tb, htb⟩ := gen_total P o T b h.2
+    obtain ⟨ta, hta⟩ := gen_total_aux P o T a h.1.2
+    obtain ⟨tb, htb⟩ := gen_total_aux P o T b h.2
     obtain ⟨c, hc⟩ := genBin_total o T op h.1.1 ta tb
     exact ⟨c, by simp [gen, hta, htb, bind, Except.bind, hc]⟩
   | .ife bs, h => by
@@ -78,19 +78,19 @@ theorem gens_total (P : Prims K) (o : Opts) (T : FTab K) : ∀ es : MExprs K, su
   | .nil, _ => ⟨_, rfl⟩
   | .cons e es, h => by
     simp only [supporteds, Bool.and_eq_true] at h
-    obtain ⟨t, ht⟩ := gen_total P o T e h.1
+    obtain ⟨t, ht⟩ := gen_total_aux P o T e h.1
     obtain ⟨ts, hts⟩ := gens_total P o T es h.2
     exact ⟨t :: ts, by simp [gens, ht, hts, bind, Except.bind]⟩
 theorem genBr_total (P : Prims K) (o : Opts) (T : FTab K) : ∀ bs : MBranches K, supportedBr T bs = true →
     ∃ ce, genBr P o T bs = .ok ce
   | .last e, h => by
     simp only [supportedBr] at h
-    obtain ⟨t, ht⟩ := gen_total P o T e h
+    obtain ⟨t, ht⟩ := gen_total_aux P o T e h
     exact ⟨([], [t]), by simp [genBr, ht, bind, Except.bind]⟩
   | .cons c e rest, h => by
     simp only [supportedBr, Bool.and_eq_true] at h
-    obtain ⟨tc, htc⟩ := gen_total P o T c h.1.1
-    obtain ⟨te, hte⟩ := gen_total P o T e h.1.2
+    obtain ⟨tc, htc⟩ := gen_total_aux P o T c h.1.1
+    obtain ⟨te, hte⟩ := gen_total_aux P o T e h.1.2
     obtain ⟨ce, hce⟩ := genBr_total P o T rest h.2
     exact ⟨(tc :: ce.1, te :: ce.2), by simp [genBr, htc, hte, hce, bind, Except.bind]⟩
 end
